@@ -25,7 +25,8 @@ Verdict for an effect present in both trees whose leaf sets are nested:
 (raise / return / continue / break) - one more evaluation of a helper or one
 more initialisation is not claimed.  Not claimed either: effects whose text
 changed, appeared or vanished (expression drift decides those), leaf sets that
-are not nested (re-spelled tests), tables beyond 8192 rows.  One exact
+are not nested (re-spelled tests), tables beyond 100000 rows (conjuncts common to every
+occurrence of both trees are factored out first).  One exact
 exception to nesting: a leaf ``x in A`` replaced by ``x in B`` - same subject,
 another container - is a changed test.
 """
@@ -165,7 +166,7 @@ def _loose(v):
     return None
 
 
-def compare(ref_occ, cur_occ, limit=8192, ambiguous=(), ref_keys=None, cur_keys=None):
+def compare(ref_occ, cur_occ, limit=100000, ambiguous=(), ref_keys=None, cur_keys=None):
     """-> (verdict, witness)  verdict in ok / lost / extra / both / changed /
     incomparable."""
     if json.dumps(ref_occ, sort_keys=True) == json.dumps(cur_occ, sort_keys=True):
@@ -185,6 +186,18 @@ def compare(ref_occ, cur_occ, limit=8192, ambiguous=(), ref_keys=None, cur_keys=
                 return 'changed', '%s in %s -> in %s' % (k[1], lr[k][3], lc[k][3])
     ref_occ = _strip_memo(ref_occ, cur_all, cur_keys)
     cur_occ = _strip_memo(cur_occ, ref_all, ref_keys)
+    # conjuncts every occurrence of both trees has (the guards in front of the part that
+    # changed) cannot make the two differ: leave them out of the table
+    def js(t):
+        return json.dumps(t, sort_keys=True)
+    if ref_occ and cur_occ:
+        common = None
+        for conj in list(ref_occ) + list(cur_occ):
+            s_ = {js(t) for t in conj}
+            common = s_ if common is None else common & s_
+        if common:
+            ref_occ = [[t for t in conj if js(t) not in common] for conj in ref_occ]
+            cur_occ = [[t for t in conj if js(t) not in common] for conj in cur_occ]
     rv, cv = _all_vars(ref_occ), _all_vars(cur_occ)
     only_r, only_c = set(rv) - set(cv), set(cv) - set(rv)
     if only_r and only_c:
